@@ -154,6 +154,18 @@ export function gen(rng, params, mode) {
     const src = decls.map(tsOfDecl).join("\n") + `\nparse.buildParsers<{ R: (${tsOf(x)}) extends (${tsOf(y)}) ? "yes" : "no" }>();\n`;
     return [A("sub"), A(String(counter++)), decls, x, y, src];
   }
+  if (names.length >= 2 && rng.chance(1, 8)) {
+    // the right operand is a union of named types that are registered BEFORE the root of the left operand (the left one
+    // mentions them in its members, so its own atom comes later): the `Greater` arms of the diagram operations
+    const n1 = rng.pick(names), n2 = rng.pick(names.filter((n) => n !== n1));
+    const r1 = [A("ref"), n1], r2 = [A("ref"), n2];
+    const x = rng.pick([[A("obj"), [["a", A("false"), r1], ["b", A(rng.chance(1, 2) ? "true" : "false"), r2]], A("none")], [A("tuple"), [r1, r2], A("none")], [A("tuple"), [r1], r2], [A("array"), [A("union"), r1, r2]]]);
+    const third = rng.below(4);
+    const y = [A("union"), r1, r2, ...(third === 0 ? [x] : third === 1 ? [mutateTy(rng, x, sc)] : third === 2 ? [genLeaf(rng)] : [])];
+    const [l, r] = rng.chance(4, 5) ? [x, y] : [y, x];
+    const src = decls.map(tsOfDecl).join("\n") + `\nparse.buildParsers<{ R: (${tsOf(l)}) extends (${tsOf(r)}) ? "yes" : "no" }>();\n`;
+    return [A("sub"), A(String(counter++)), decls, l, r, src];
+  }
   const a = genSubTy(rng, 1 + rng.below(3), sc);
   let b;
   const r = rng.below(6);
